@@ -328,6 +328,17 @@ Reinit ==
     /\ asub' = [r \in Reqs |-> [p \in 0..2 |-> <<>>]]
     /\ events' = <<>> /\ ret' = RNone
 
+\* The per-(provided, component) counter is a VOLATILE cache
+\* (_v_utility_registrations_cache): it is lost whenever the object is
+\* unpickled or ghosted and rebuilt from the utility listing at the next use.
+\* Losing it changes nothing observable.
+DropCache ==
+    /\ Live > 0
+    /\ call' = Call("dropcache", 0, 0, 0, 0, "", "", TRUE, 0)
+    /\ events' = <<>> /\ ret' = RNone
+    /\ UNCHANGED <<ureg, areg, sreg, hreg, uadp, aadp, usub, ucnt, urep,
+                   asub, epoch>>
+
 Init == /\ EmptyContent
         /\ events = <<>> /\ ret = RNone /\ epoch = 0
         /\ call = Call("init", 0, 0, 0, 0, "", "", TRUE, 0)
@@ -368,6 +379,8 @@ Next ==
           /\ UnregisterHandler(f, r)
     \/ /\ "reinit" \in Ops
        /\ Reinit
+    \/ /\ "dropcache" \in Ops
+       /\ DropCache
 
 (***************************************************************************)
 (* Declarative side: the queries, as functions of registry contents        *)
@@ -522,6 +535,7 @@ ListingsStep ==
               /\ UNCHANGED <<ureg, areg, sreg>>
          [] a.op = "reinit" ->
               ureg' = {} /\ areg' = {} /\ sreg' = <<>> /\ hreg' = <<>>
+         [] a.op = "dropcache" -> UNCHANGED <<ureg, areg, sreg, hreg>>
          [] OTHER -> FALSE
 
 DescribesU(e, o) == /\ e.t = "u" /\ e.r = 0 /\ e.p = o.p /\ e.n = o.n
@@ -581,6 +595,7 @@ EventsStep ==
               /\ \A j \in DOMAIN es :
                     es[j] = Event("U", "h", a.r, 0, "", {a.f}, "", 0)
          [] a.op = "reinit" -> es = <<>>
+         [] a.op = "dropcache" -> es = <<>>
          [] OTHER -> FALSE
 
 ReturnStep ==
